@@ -63,6 +63,7 @@ type KSrc struct {
 	ſet       int
 	Sub       KSubS
 	Kelvin    int
+	Same      KSubS
 }
 
 type KDst struct {
@@ -77,6 +78,7 @@ type KDst struct {
 	ſet       int
 	Sub       KSubD
 	Kelvin    int
+	Same      KSubS
 }
 
 type Convergen interface {
@@ -84,7 +86,9 @@ type Convergen interface {
 }
 `
 
-var c19E2ETop = []string{"ID", "Name", "NAME", "Token", "TOKEN", "Created", "CreatedAt", "Ünit", "ſet", "Sub", "Kelvin"}
+// Sub has different struct types on the two sides (always copied member by member), Same the same type (copied as a
+// whole unless a pattern matches one of its members)
+var c19E2ETop = []string{"ID", "Name", "NAME", "Token", "TOKEN", "Created", "CreatedAt", "Ünit", "ſet", "Sub", "Kelvin", "Same"}
 var c19E2ESub = []string{"Name", "ID", "Kelvin", "Token", "ſet"}
 
 type c19E2EMeta struct {
@@ -173,10 +177,10 @@ func c19E2EJudge(m c19E2EMeta) hx.Verdict {
 			want[f] = true
 			continue
 		}
-		if f == "Sub" {
+		if f == "Sub" || f == "Same" {
 			for _, s := range c19E2ESub {
-				if matches("Sub." + s) {
-					want["Sub."+s] = true
+				if matches(f + "." + s) {
+					want[f+"."+s] = true
 				}
 			}
 		}
@@ -229,7 +233,7 @@ func init() {
 		}
 		allPaths := append([]string{}, c19E2ETop...)
 		for _, s := range c19E2ESub {
-			allPaths = append(allPaths, "Sub."+s)
+			allPaths = append(allPaths, "Sub."+s, "Same."+s)
 		}
 		rapidRun(t, env, "end-to-end", env.Pick(48000, 1600000), func(rt *rapid.T) {
 			var m c19E2EMeta
